@@ -49,7 +49,7 @@ func (c03) Build(tier string, seed uint64) []any {
 	for _, g := range geos {
 		add(enumBatches("enum", g.w, g.h, g.c, g.p, 0, 4096))
 	}
-	per := 14
+	per := 60
 	if th {
 		per = 600
 	}
